@@ -52,6 +52,11 @@ let () =
         let n2 = next () in let s = List.init n2 (fun _ -> nat_of_int (next ())) in
         { e_p = nat_of_int p; e_q = nat_of_int q; e_first = f; e_second = s }) in
       let sizes = List.init np (fun _ -> List.init ni (fun _ -> nat_of_int (next ()))) in
+      let opt () = if !pos < Array.length t then next () else 0 in
+      let v = opt () in let _dtype = opt () in let mb = opt () in
+      (* the buffer size the constructor used by API path v ends up with *)
+      let buf = int_of_nat (c06_ctor_buf (if v = 1 || v = 3 then None else Some (nat_of_int buf))
+                                         (if mb = 0 then None else Some (nat_of_int mb))) in
       let variable = (mode = 1) and backward = (dir = 1) in
       List.iter (List.iter (fun n -> if int_of_nat n >= w then failwith "size too large for item coding")) sizes;
       let nbuf = nat_of_int buf and nni = nat_of_int ni and nw = nat_of_int w and nnp = nat_of_int np in
